@@ -74,6 +74,27 @@ func c08CSSWideIsWhole(c *core.Check) {
 			var lens []lenAtom
 			var loopConds []ssa.Value
 			for _, a := range core.CondAtoms(fn) {
+				// a helper that compares its argument with both words (isCSSWide(token)) counts for both
+				if hc, ok := a.(*ssa.Call); ok {
+					if callee := hc.Call.StaticCallee(); callee != nil && comparesWithBothWords(callee) {
+						whole := false
+						if len(hc.Call.Args) == 1 {
+							_, whole = hc.Call.Args[0].(*ssa.Parameter)
+							if _, isList := hc.Call.Args[0].Type().Underlying().(*types.Slice); !isList {
+								whole = false
+							}
+						}
+						kws = append(kws, kwAtom{a, "inherit", true, whole}, kwAtom{a, "initial", true, whole})
+						if !whole {
+							if l := core.InnermostLoop(fn, hc.Block()); l != nil && len(l.Header.Instrs) > 0 && !l.Blocks[call.Block()] {
+								if ifi, ok := l.Header.Instrs[len(l.Header.Instrs)-1].(*ssa.If); ok {
+									loopConds = append(loopConds, core.IfCondAtoms(ifi.Cond)...)
+								}
+							}
+						}
+					}
+					continue
+				}
 				bo, ok := a.(*ssa.BinOp)
 				if !ok {
 					continue
@@ -121,6 +142,9 @@ func c08CSSWideIsWhole(c *core.Check) {
 					assign := map[ssa.Value]bool{}
 					for _, k := range kws {
 						is := !k.whole && k.word == word
+						if prev, seen := assign[k.atom]; seen && prev == k.eq {
+							continue // a helper atom stands for both words: true once is true
+						}
 						assign[k.atom] = is == k.eq
 					}
 					for _, a := range loopConds {
@@ -157,6 +181,29 @@ func c08CSSWideIsWhole(c *core.Check) {
 	if n == 0 {
 		r.Anchor("calls of validateNonShorthand with required = true")
 	}
+}
+
+// comparesWithBothWords: a function with a boolean result whose body compares a string with "inherit" and with
+// "initial".
+func comparesWithBothWords(fn *ssa.Function) bool {
+	res := fn.Signature.Results()
+	if res.Len() != 1 || len(fn.Blocks) == 0 {
+		return false
+	}
+	if b, ok := res.At(0).Type().Underlying().(*types.Basic); !ok || b.Kind() != types.Bool {
+		return false
+	}
+	seen := map[string]bool{}
+	core.Instrs(fn, func(in ssa.Instruction) {
+		if bo, ok := in.(*ssa.BinOp); ok && bo.Op == token.EQL {
+			for _, v := range []ssa.Value{bo.X, bo.Y} {
+				if w, ok := core.ConstStr(v); ok {
+					seen[w] = true
+				}
+			}
+		}
+	})
+	return seen["inherit"] && seen["initial"]
 }
 
 // siteIndex numbers the calls of target in fn in source order.
